@@ -56,6 +56,25 @@ Theorem C16_setclr_code : forall s e j ps, nth_error s j = Some ps ->
 Proof. exact setclr_code. Qed.
 Print Assumptions C16_setclr_code.
 
+(* The Output field action itself (Peripheral.Output instantiated alone, set / clr inputs free): exactly one of
+   set / clr decides and beats a register write in the same cycle; neither or both leave the bit to the write, if
+   any; each field sees its own bits only.  Inside the peripheral the same function steps the pin (pin_next_out). *)
+Theorem C16_output_field_priority : forall s i j b, nth_error s j = Some b ->
+  nth_error (oreg_next s i) j =
+  Some (let st := Z.testbit (q_set i) (Z.of_nat j) in
+        let cl := Z.testbit (q_clr i) (Z.of_nat j) in
+        if st && negb cl then true
+        else if cl && negb st then false
+        else if q_wstb i then Z.testbit (q_wdata i) (Z.of_nat j)
+        else b).
+Proof. exact output_field_priority. Qed.
+Print Assumptions C16_output_field_priority.
+
+Theorem C16_pin_uses_output_field : forall ps pi,
+  ps_out (pin_next ps pi) = outbit_next (ps_out ps) (out_set pi) (out_clr pi) (pi_out_wstb pi) (pi_out_wdata pi).
+Proof. exact pin_next_out. Qed.
+Print Assumptions C16_pin_uses_output_field.
+
 (* One clock of pin j's mode from any core state: a Mode write delivers the pin's own two bits. *)
 Theorem C16_mode_step : forall s e j ps, nth_error s j = Some ps ->
   exists ps', nth_error (core_next s e) j = Some ps' /\
@@ -370,6 +389,13 @@ Example C16_input_read_instance :
     [false; false; false; true; false] /\
   map (fun j => blevel ex_bs j 3) [0; 1; 2; 3; 4]%nat = [false; false; false; true; false].
 Proof. vm_compute. split; reflexivity. Qed.
+
+(* set (pin 0) and clear (pin 1) arriving together with a register write of the opposite values: set / clear win;
+   pin 2 gets both (11) and pin 3 neither (00): the write decides *)
+Example C16_priority_nonvacuous :
+  oreg_next [false; true; false; true] {| q_wstb := true; q_wdata := 0x6; q_set := 0x5; q_clr := 0x6 |} =
+    [true; false; true; false].
+Proof. reflexivity. Qed.
 
 (* independence: two element-level histories that differ in every other pin's bits agree on pin 1's slices *)
 Definition ex_e1 := {| e_mode_wstb := true; e_mode_wdata := 0x1E4; e_out_wstb := false; e_out_wdata := 0;
